@@ -109,7 +109,8 @@ def run(ctx):
         fs = sorted(byfam[fam])
         ctx.rng.shuffle(fs)
         fpick += fs[:(40 if th else 2)]
-    fpick = sorted(set(fpick) | set(pick))
+    force = [x for x in os.environ.get('VERIF_C06_FILES', '').split(',') if x]      # development aid: force sample files into the field arm
+    fpick = sorted(set(fpick) | set(pick) | {f for f in files if any(x in f for x in force)})
     jobs, obs = [], []
     # numeric fields of every picked sample, from fq's own decode: targets for field saturation
     fjobs = []
@@ -120,12 +121,20 @@ def run(ctx):
     fres = corpusarm.run_jobs(ctx, fjobs, 'c06_fields', mem_kb=MEM_KB, per_job=60)
     fields = {}
     for j, r in zip(fjobs, fres):
-        fl = ((r['res'] or {}).get('fields') or []) if r['outcome'] == 'ok' else []
-        fl = sorted({(a, b) for a, b in fl})
-        cap = (400 if f in pick else 150) if th else 40
-        if len(fl) > cap:          # seed-rotating stride over the field list
-            step = len(fl) / cap
-            fl = [fl[int((k * step + ctx.seed) % len(fl))] for k in range(cap)]
+        f = j['file']
+        rr = (r['res'] or {}) if r['outcome'] == 'ok' else {}
+        named = sorted({(a, b, n) for (a, b), n in zip(rr.get('fields') or [], rr.get('fnames') or [])})
+        # counts, sizes, lengths, offsets and indexes first (the "length-field saturation" of the property), the rest by a seed-rotating stride
+        hot = [(a, b) for a, b, n in named if re.search(r'count|size|len|num|entr|offset|index|idx|pos|start|end|width|height|version|type|flag', n, re.I)]
+        cold = [(a, b) for a, b, n in named if (a, b) not in set(hot)]
+        cap = (300 if f in pick else 120) if th else (40 if not any(x in f for x in force) else 400)
+        def stride(lst, k):
+            if len(lst) <= k:
+                return lst
+            step = len(lst) / k
+            return [lst[int((i * step + ctx.seed) % len(lst))] for i in range(k)]
+        fl = stride(hot, cap * 3 // 4)
+        fl = fl + stride(cold, cap - len(fl))
         fields[f] = fl
 
     def add(f, fmt, force, cls, mut, cli=False):
@@ -151,6 +160,10 @@ def run(ctx):
             add(f, fmt, force, 'none', None)
             for cls, m in muts:
                 add(f, fmt, force, cls, m)
+        # the command line (exit status) on the truncation family
+        for cls, m in [x for x in muts if x[0] == 'trunc'][::(1 if th else 6)]:
+            add(f, fmts[0], False, cls, m, cli=True)
+            add(f, 'probe', False, cls, m, cli=True)
     for f in fpick:                # field saturation under the sample's own format (and probe for the bytewise files in thorough)
         fmt0 = corpusarm.golden_formats(f, known)[0]
         for a, b in fields.get(f, []):
@@ -159,10 +172,6 @@ def run(ctx):
                 add(f, fmt0, False, 'field', m)
                 if th and f in pick:
                     add(f, 'probe', False, 'field', m)
-        # the command line (exit status) on the truncation family
-        for cls, m in [x for x in muts if x[0] == 'trunc'][::(1 if th else 6)]:
-            add(f, fmts[0], False, cls, m, cli=True)
-            add(f, 'probe', False, cls, m, cli=True)
     gen = generated_files(ctx)
     fmt_list = sorted(known) if th else sorted(known)[ctx.seed % 3::3]
     for name, p in gen.items():
